@@ -134,6 +134,18 @@ def run():
                 a, b = b, a
             if r.random() < 0.3:
                 a, b = [a, 1], [b, 1]
+        elif c < 0.33:
+            # EQUAL container siblings (rows / records that occur twice), an earlier one edited in place, a later one left
+            # alone or edited differently: per-node state shared between equal siblings would show in the rendering
+            row = r.choice(([1, 2], [0, 0], {"name": "x", "v": 1}, {"k": [1]}, ["a", "b", "c"]))
+            import copy as _copy
+            n = r.randint(2, 3)
+            a = [_copy.deepcopy(row) for _ in range(n)]
+            b = [_copy.deepcopy(row) for _ in range(n)]
+            for idx in r.sample(range(n), r.randint(1, n - 1) if n > 1 else 1):
+                b[idx] = docs.mutate(b[idx], r, depth=1)
+            if r.random() < 0.4:
+                a, b = {"rows": a, "n": 1}, {"rows": b, "n": 1}
         elif c < 0.45:
             a = docs.random_doc(r, depth=r.choice((1, 2, 3)))
             b = docs.mutate(a, r)
